@@ -98,7 +98,7 @@ PLANS = {
             {"name": "pathfaults", "module": "GenSyntax", "constants": {"Family": '"pathfaults"'}},
             {"name": "soup", "module": "GenSyntax", "constants": {"Family": '"soup"'}, "ops": ["jp_parse"]},
         ],
-        "bounds": "~600 syntax trees (every step kind with 8 names incl. ones needing quotes, 22 index lists incl. i32 extremes, 23 literals of every scalar kind incl. negative/fractional/exponent/empty-string/escaped, all comparison operators, 14 &&/||/parenthesis/exists nestings, leading-name form, predicates) x 6 spelling styles (3 spacings x 3 keyword cases x quoted/bare names) x 2 float lexeme tables; 13 certainly-invalid edits per tree; all byte soups of <=3 bytes over 20 characters",
+        "bounds": "~600 syntax trees (every step kind with 8 names incl. ones needing quotes, 22 index lists incl. i32 extremes, 23 literals of every scalar kind incl. negative/fractional/exponent/empty-string/escaped, all comparison operators, 14 &&/||/parenthesis/exists nestings, leading-name form, predicates) x 6 spelling styles (3 spacings x 3 keyword cases x quoted/bare names) x 2 float lexeme tables; 13 certainly-invalid edits per tree; all byte soups of <=3 bytes over 20 characters; 7 names with supplementary-plane characters (planes 1, 2, 14, 16) raw and as escaped surrogate pairs in names, key-path elements and string literals",
     },
     "C15": {
         "drive": [{"kind": "path", "count": {"quick": 3000, "thorough": 40000}}],
@@ -193,9 +193,10 @@ PLANS = {
         "gen": [gen("extreme", "extreme", ["delete_by_index", "array_insert", "get_by_keypath", "delete_by_keypath", "get_by_index"], rp="{0, 1}"),
                 {"name": "extremepath", "module": "GenPath", "constants": {"Family": '"err"', "MaxSteps": "0"}},
                 {"name": "limits", "module": "Limits", "constants": {"W": "6"}, "invariants": ["OutcomeOk"]},
+                {"name": "indexproofs", "tool": "tlapm", "module": "IndexProofs", "tiers": ("thorough",)},
                 {"name": "deep", "module": "GenDeep", "constants": {},
                  "tier_constants": {"quick": {"Depths": "{1000, 10000, 100000}"}, "thorough": {"Depths": "{100, 1000, 3000, 10000, 30000, 100000, 300000}"}}}],
-        "bounds": "index and position arguments at {i32::MIN, MIN+1, -len-1, -len, -1, 0, len-1, len, len+1, MAX-1, MAX} for delete_by_index, array_insert, both key-path functions (at depth 1 and 2, JSONB and text) and JSONPath index forms; 25 routines x {array, object, alternating} nesting x depths on a geometric ladder up to 300000 (quick: 1000/10000/100000), each in a child process with an 8 MiB stack; index-arithmetic laws model-checked on a 6-bit scaled copy",
+        "bounds": "index and position arguments at {i32::MIN, MIN+1, -len-1, -len, -1, 0, len-1, len, len+1, MAX-1, MAX} for delete_by_index, array_insert, both key-path functions (at depth 1 and 2, JSONB and text) and JSONPath index forms; 25 routines x {array, object, alternating} nesting x depths on a geometric ladder up to 300000 (quick: 1000/10000/100000), each in a child process with an 8 MiB stack; index-arithmetic laws model-checked on a 6-bit scaled copy and (thorough) proved for every machine width with TLAPS (IndexProofs.tla: 12 obligations, incl. that the saturating position arithmetic of Path.tla agrees with exact integer positions)",
         "assumptions": ["stack exhaustion is observed with the default 8 MiB thread stack of this harness build (opt-level 1); frame sizes of other builds differ, which is why recorded findings name a ladder rung one step shallower than the first observed crash"],
     },
 }
